@@ -24,6 +24,7 @@ func init() {
 			"R6 a reset node re-reads its state, R7 unfinished work found at restart IS reset (once state == Failed in checkedReset / queued_locally exists in restartQueuedLocal / state == Queued or the recorded pid is dead in restartLocal holds on an edge, every path to the entry point's return passes uncheckedReset; verdict-returning helpers are followed into their callers). " +
 			"Round 4: R7 also for a Running job without a recorded pid (search with known facts through the shared else-if block) and with the state assumed Queued (edges contradicting the assumption pruned); R3 the uniquifier of a reset attempt is computed from, compared with, or independent of the previous one (not a pure function of pid and seconds). " +
 			"Round 5: R6b node states are derived only after every node has loaded its metadata; R9 the metadata archive gets its final name by a rename after it was written completely; R3b a full stage reset stores new uniquifiers. " +
+			"Round 6: R10 (= X8) chunk directories are named alike by doChunks and updateId; R7b an orphaned local node found Running at re-attach is reset on every path. " +
 			"NOT decided: equality of final outputs with an uninterrupted run, behaviour at each individual crash prefix, PID reuse.",
 		Assumptions: commonAssumptions,
 	}
@@ -39,6 +40,8 @@ func runC05(c *an.Ctx) {
 	ruleR6b(c)
 	ruleR9(c)
 	ruleR3b(c)
+	ruleChunkWidth(c, "R10")
+	ruleOrphanReset(c, "R7b")
 	ruleR7(c)
 	ruleR7Assume(c)
 }
